@@ -168,7 +168,8 @@ def drive_a(rec, cases):
             x = np.array([rng.randrange(-(1 << bits), 1 << bits) for _ in range(n)], dtype=np.int64)
             exp = [sum((1 if s > 0 else -1) * int(x[abs(s) - 1]) for s in cell) for cell in c["res"]]
             pp = p + 2 * n * rng.choice([0, 1, -1, 7, -(1 << 40)])
-            rec.progress("%s(N=%d,p=%d)" % (name, n, pp))
+            if not rec.progress("%s(N=%d,p=%d)" % (name, n, pp)):
+                continue
             got = run_kernel(L, name, inplace, dt, n, pp, x)
             n_replayed += 1
             rec.case(("A", name, n, p % (2 * n)), nontrivial=n > 1)
@@ -202,7 +203,8 @@ def drive_b(rec, n, full, quick):
             rnd = np.array([rng.randrange(-(1 << 20), 1 << 20) for _ in range(n)], dtype=np.int64) \
                 if (full and n <= 64) else None
             for (nm, ip, dt) in fns:
-                rec.progress("%s(N=%d,p=%d)" % (nm, n, p))
+                if not rec.progress("%s(N=%d,p=%d)" % (nm, n, p)):
+                    continue
                 got = run_kernel(L, nm, ip, dt, n, p, probe)
                 groups.setdefault(None if got is None else got.tobytes(), []).append(nm)
                 rec.case((nm, n, p % (2 * n) if full else p), nontrivial=n > 1)
@@ -223,7 +225,8 @@ def drive_b(rec, n, full, quick):
                         events.append({"e": "Map", "kind": kind, "N": n, "pw": to_words(p), "fns": [nm],
                                        "in": [int(v) for v in rnd], "obs": [int(v) for v in g3], "_p": p})
             for (f, mk, ip) in wfs:
-                rec.progress("%s[%s,%s](N=%d,p=%d)" % (f, mk, ip, n, p))
+                if not rec.progress("%s[%s,%s](N=%d,p=%d)" % (f, mk, ip, n, p)):
+                    continue
                 got = W.run(f, mk, ip, p, probe)
                 groups.setdefault(None if got is None else got.tobytes(), []).append(
                     "%s[%s%s]" % (f, mk, ",inplace" if ip else ""))
